@@ -772,14 +772,20 @@ def rule_N11(ctx):
 # ------------------------------------------------------------------------ N6
 def rule_N6(ctx):
     gi = ctx.fn(ST, "Traversable.get_info", "N6")
-    fors = [f for f in own_nodes(gi) if isinstance(f, ast.For) and norm(f.iter) == "self.children"]
-    ok = len(fors) == 1
+    from .sem import list_builder as _lb6
+    from .util import call_parts as _cp6, evaluator as _evl
+    it_calls = [c for c in own_nodes(gi) if isinstance(c, ast.Call) and isinstance(c.func, ast.Name) and c.func.id == "InfoTable"]
+    ok, det = len(it_calls) == 1, "InfoTable(...) construction not found"
     if ok:
-        cv = fors[0].target.id
-        asg = {norm(a.targets[0]): norm(a.value) for a in ast.walk(fors[0]) if isinstance(a, ast.Assign)}
-        app = [c for c in ast.walk(fors[0]) if isinstance(c, ast.Call) and isinstance(c.func, ast.Attribute) and c.func.attr == "append"]
-        ok = asg.get("name") == f"{cv}.safe_name" and len(app) == 1 and norm(app[0].args[0]).startswith("(name,") and not any(isinstance(n, (ast.If, ast.Break, ast.Continue)) for n in ast.walk(fors[0]))
-    ctx.ob("N6", gi, "the listing shows safe_name of every child, one row per child", ok, "", inst="listing")
+        fname_, pos_, kw_ = _cp6(_evl(ctx, gi, {}).ev(it_calls[0]).key())
+        rows_arg = None
+        c_ = it_calls[0]
+        cand = [k.value for k in c_.keywords if k.arg == "rows"] or (c_.args[1:2])
+        rows_arg = cand[0] if cand else None
+        lb = _lb6(gi, rows_arg.id) if isinstance(rows_arg, ast.Name) else None
+        ok = lb is not None and lb[0] == "self.children" and len(lb[1]) == 1 and lb[1][0][0] is None and lb[1][0][1].startswith("(_c0.safe_name,")
+        det = "" if ok else f"rows are built as {lb}"
+    ctx.ob("N6", gi, "the listing shows safe_name of every child, one row per child", ok, det, inst="listing")
     pp = ctx.fn(ST, "Traversable.parse_path", "N6")
     comps = [n for n in own_nodes(pp) if isinstance(n, ast.GeneratorExp)]
     ok = False
@@ -1236,10 +1242,14 @@ def rule_X1(ctx):
     t = full(pt)
     ok = "if len(self.rows) <= 0:" in t and "result = '(*empty*)'" in t
     ctx.ob("X1", pt, "an empty directory lists as (*empty*) instead of failing", ok, "", inst="empty")
-    fors = [f for f in own_nodes(pt) if isinstance(f, ast.For) and norm(f.iter) == "self.rows"]
-    ok = len(fors) == 1 and not any(isinstance(n, (ast.Break, ast.Continue, ast.If, ast.Return)) for n in ast.walk(fors[0])) \
-        and "str_buffer.write(make_line(row) + '\\n')" in full(fors[0])
-    ctx.ob("X1", pt, "every row of the listing is written, in order", ok, "", inst="all-rows")
+    from .sem import emitted_lines
+    # the statements after the empty-table guard assemble header, divider and one line per row
+    tail = [st for st in pt.body if not (isinstance(st, ast.If) and any(isinstance(n, ast.Return) for n in ast.walk(st)))]
+    tail = [st for st in tail if not isinstance(st, (ast.FunctionDef,))]
+    seq = emitted_lines(pt, tail)
+    ok = seq is not None and len(seq) == 3 and seq[0] == ("one", "make_line(self.header)") and seq[1][0] == "one" and seq[1][1].startswith("'-' * ") \
+        and seq[2] == ("each", "self.rows", "make_line(_c0)")
+    ctx.ob("X1", pt, "every row of the listing is written, in order", ok, "" if ok else f"lines assembled: {seq}", inst="all-rows")
     ok = "row[i].ljust(column_widths[i])" in t and "elif width > column_widths[i]" in t
     ctx.ob("X1", pt, "columns widen to the longest value (names are padded, never cut)", ok, "", inst="no-cut")
     tr = ctx.fn(ip, "InfoTree.print_tree", "X1")
